@@ -266,8 +266,8 @@ def o_surface(v: View):
             yield "wrong-exception-raised", f"last attempt raised {s.obj!r} (attempt {s.i}); call() raised {val!r}"
         elif not has_frame(val, "op_body"):
             yield "traceback-lost", f"raised {val!r} without the operation's frame in its traceback"
-        if isinstance(val.__cause__, BaseException) and val is s.obj and val.__cause__ is not None:
-            yield "exception-chained", f"the operation's exception acquired a __cause__: {val.__cause__!r}"
+        if val is s.obj and val.__cause__ is not getattr(val, "rv_cause", None):
+            yield "exception-chained", f"the operation's exception left call() with a different __cause__: {val.__cause__!r} (it was raised with {getattr(val, 'rv_cause', None)!r})"
         return
     # RetryExhaustedError expected
     if tname(val) != "RetryExhaustedError":
